@@ -58,12 +58,14 @@ class Case:
     def __init__(self, acc, rnd, tier, case, mode, focus, gen_kw=None, via=None):
         self.acc, self.rnd, self.tier, self.case, self.mode, self.focus = acc, rnd, tier, case, mode, focus
         kw = dict(TIER[tier]['gen'])
-        kw.update(p_shared_text=0.15, p_active_call=0.1)
+        kw.update(p_shared_text=0.15, p_active_call=0.1, p_twin=0.15)
         kw.update(gen_kw or {})
         self.ch = gen_chart(rnd, mode=mode, **kw)
         self.tr = Tree(self.ch)
         self.st = self.ch['states']
         self.tdict = {t['id']: t for t in self.ch['transitions']}
+        if any(t.get('code_id') for t in self.ch['transitions']):
+            acc.count('charts_with_exact_twin_transitions')
         self.digest = chart_digest(self.ch)
         self.via = via or rnd.choice(('api', 'api', 'yaml', 'edited', 'roundtrip'))
         self.detours = None
@@ -158,6 +160,19 @@ class Case:
                 kw['delay'] = d
             self.it.queue(*[e[0] for e in evs], **kw)
             self.acc.count('queue_several_names_with_shared_parameters')
+        elif n >= 2 and rnd.random() < 0.25:
+            # names and Event instances mixed in one call: the named parameters (delay included) go to the events given by
+            # name only, every instance keeps its own
+            u0, d0 = evs[0][1], evs[0][2]
+            byname = [rnd.random() < 0.5 for _ in evs]
+            byname[rnd.randrange(n)] = True
+            byname[(byname.index(True) + 1) % n] = False
+            evs = [(nm, u0, d0) if b else (nm, u, d) for b, (nm, u, d) in zip(byname, evs)]
+            kw = dict(u=u0)
+            if d0:
+                kw['delay'] = d0
+            self.it.queue(*[nm if b else (Event(nm, u=u, delay=d) if d else Event(nm, u=u)) for b, (nm, u, d) in zip(byname, evs)], **kw)
+            self.acc.count('queue_names_and_instances_mixed')
         elif n == 1 and rnd.random() < 0.5:
             name, u, d = evs[0]
             if d:
